@@ -156,7 +156,21 @@ def bp_value(bp):
     return {"type": Linear2StageBattery, "capacity_fn": batt_cap_fn}
 
 
-def ev_obs(ev):
+def ev_obs(ev, V=None, T=None):
+    b = ev._battery
+    o = _ev_obs(ev)
+    if V is not None and type(b).__name__ == "Linear2StageBattery" and not math.isinf(o["init"]):
+        # the property's last sentence on converter output: a battery with the returned (capacity,
+        # initial charge) and the power the fit assumes, charged at 32 A for the stay
+        from acnportal.acnsim.models.battery import Linear2StageBattery
+        b2 = Linear2StageBattery(o["cap"], o["init"], 32 * V / 1000)
+        for _ in range(max(0, o["departure"] - o["arrival"])):
+            b2.charge(32, V, T)
+        o["fit_delivered"] = float(b2._current_charge) - o["init"]
+    return o
+
+
+def _ev_obs(ev):
     b = ev._battery
     return dict(arrival=int(ev.arrival), departure=int(ev.departure), requested=float(ev.requested_energy),
                 cap=float(b._capacity), init=float(b._init_charge),
@@ -193,7 +207,7 @@ def run_acn(inp):
                                  force_feasible=inp["ff"])
             except Exception as e:  # noqa
                 return dict(error=err_tag(e))
-        return dict(evs=[ev_obs(e) for e in evs])
+        return dict(evs=[ev_obs(e, inp["V"], inp["T"]) for e in evs])
     finally:
         ae.DataClient = orig
 
@@ -238,7 +252,7 @@ def run_stoch(inp):
     out = []
     for item in queue.queue:
         ts, ev = item[0], item[1].ev
-        o = ev_obs(ev)
+        o = ev_obs(ev, inp["V"], inp["T"])
         o["row"] = int(o["session"].split("_")[1])
         o["event_ts"] = int(ts)
         out.append(o)
@@ -614,16 +628,61 @@ def check_battery(bp, o, V, T):
     else:
         if init < 0 or init > cap or init + req > cap * (1 + REL):
             return "fitted battery cannot hold the request: cap %r init %r requested %r" % (o["cap"], o["init"], o["requested"])
-        if o["cap"] not in LADDER and "cap_any" not in o:
+        if o["cap"] not in LADDER:
             return "capacity %r is not a ladder step" % o["cap"]
+        if "fit_delivered" in o and abs(F(o["fit_delivered"]) - req) > 2 * REL * cap + F(1, 10 ** 12):
+            return ("fitted battery charged at 32 A for the %d-period stay takes %r kWh, requested %r"
+                    % (o["departure"] - o["arrival"], o["fit_delivered"], o["requested"]))
     return None
 
 
+def fit_feasible(E, n, V, T):
+    """clearly feasible for the fit: some ladder step >= E takes E from empty in n periods, with margin"""
+    E = float(E)
+    if E < 0:
+        return False
+    if n <= 0:
+        return E == 0
+    for cap in LADDER:
+        if E > cap:
+            continue
+        mn = 32 * V / 1000 / cap / (60 / T) * n
+        d0 = mn if mn <= 0.8 else 1 - 0.2 * math.exp(-(mn - 0.8) / 0.2)
+        if d0 * cap >= E * (1 + 1e-6) + 1e-9:
+            return True
+    return False
+
+
+def rejection_ok(bp, sessions, V, T):
+    """sessions: (energy, stay).  A ValueError is a legitimate rejection only if some session has a
+    negative energy (Battery refuses capacity < initial charge) or, with the fit, is not clearly feasible"""
+    for e, stay in sessions:
+        if e < 0:
+            return True
+        if bp == "fit" and not fit_feasible(e, stay, V, T):
+            return True
+    return False
+
+
 def monitor_acn(inp, impl):
-    if "error" in impl:
-        return None if impl["error"].startswith("ValueError") else "get_evs raised %s" % impl["error"]
     T = inp["T"]
     off = math.floor(ts_exact(*inp["start"]) / (60 * T))
+    if "error" in impl:
+        if not impl["error"].startswith("ValueError"):
+            return "get_evs raised %s" % impl["error"]
+        sess = []
+        for d in inp["docs"]:
+            a = math.floor(ts_exact(*d["conn"]) / (60 * T)) - off
+            dep = math.floor(ts_exact(*d["disc"]) / (60 * T)) - off
+            if inp["max_len"] is not None and dep - a > inp["max_len"]:
+                dep = a + inp["max_len"]
+            e = F(d["kwh"])
+            if inp["ff"]:
+                e = min(e, F(inp["maxP"]) * (dep - a) * F(T) / 60)
+            sess.append((e, dep - a))
+        if not rejection_ok(inp["bp"], sess, inp["V"], T):
+            return "get_evs raised %s although every session is acceptable" % impl["error"]
+        return None
     if len(impl["evs"]) != len(inp["docs"]):
         return "number of EVs differs from number of documents"
     prev = None
@@ -663,10 +722,25 @@ def monitor_acn(inp, impl):
 
 
 def monitor_stoch(inp, impl):
-    if "error" in impl:
-        return None if impl["error"].startswith("ValueError") else "generate_events raised %s" % impl["error"]
     T = inp["T"]
     pph = F(60, T)
+    if "error" in impl:
+        if not impl["error"].startswith("ValueError"):
+            return "generate_events raised %s" % impl["error"]
+        if all(len(d) == 0 for d in inp["days"]):
+            return None                      # np.vstack of nothing
+        sess = []
+        for idx, a, d, e in stoch_rows_exact(inp):
+            if a < 0 or d <= 0 or e <= 0:
+                continue
+            if inp["max_len"] is not None and d > F(inp["max_len"]):
+                d = F(inp["max_len"])
+            if inp["ff"]:
+                e = min(e, F(inp["maxP"]) * d)
+            sess.append((e, math.floor((a + d) * pph) - math.floor(a * pph)))
+        if not rejection_ok(inp["bp"], sess, inp["V"], T):
+            return "generate_events raised %s although every row is acceptable" % impl["error"]
+        return None
     want = []
     for idx, a, d, e in stoch_rows_exact(inp):
         if a < 0 or d <= 0 or e <= 0:
